@@ -16,46 +16,46 @@ CLAIMED = {
  "C03": ("model-based stateful PBT (multiset + comparator model), bounded-exhaustive sequences + rapid; Sort as permutation/order oracle",
          "Operation sequences over Push/Pop/Peek/Clear/Convert/Delete/Merge/Meld/FromSlice with three comparators are executed against a multiset model: extremality of Pop/Peek, exact conservation (Size, IsEmpty, GetValues as multiset, Delete results), Merge/Meld/Convert/FromSlice contracts, final drain; Sort checked as ordered permutation. One open known finding (Delete leaves the vacated slot unsifted, pinned by the repository's tests) suspends only order assertions after such a Delete; conservation stays exact." + BOUND,
          "Trusts the multiset reference model. Known finding heap-delete-unsifted carves out order assertions after a successful Delete of an interior slot.", "4 (C03)", "pbt"),
- "C04": ("model-based stateful PBT (map + sort model), bounded-exhaustive Upsert/Delete sequences + rapid",
+ "C04": ("model-based stateful PBT (map + sort model), bounded-exhaustive Upsert/Delete sequences + rapid; other key/value instantiations incl. a comparator with ties; free-running Traverse under concurrent edits of other keys",
          "Every Upsert/Delete sequence up to the length bound over keys 0..4 with both comparators, plus long random histories (sorted/reversed/random insertion), is compared with a map model after every step: Get of every key, Delete results, Traverse sequence (each present key once, current value, comparator order) and Size. One open known finding (Delete of an absent key decrements Size, pinned by the repository's Example) suspends only the Size assertion after the first such Delete of a case." + BOUND,
          "Trusts the map/sort reference model. Known finding bst-delete-absent-size.", "4 (C04)", "pbt"),
- "C05": ("model-based stateful PBT (slice model), bounded-exhaustive sequences over both queue implementations + rapid drain/refill histories",
+ "C05": ("model-based stateful PBT (slice model), bounded-exhaustive sequences over both queue implementations + rapid drain/refill histories; pointer elements",
          "Every Enqueue/Dequeue/Clear sequence up to the bound over a 3-value alphabet on both implementations (linked one from its mandatory first element), with complete observation (Size, Peek, Search of every value) and a final drain, against a slice model; long random sequences that drain and refill repeatedly." + BOUND,
          "Trusts the slice model; int/string elements; zero value reserved for 'empty'.", "4 (C05/C06)", "pbt"),
- "C06": ("model-based stateful PBT (slice model), bounded-exhaustive sequences over both stack implementations + rapid empty/refill histories",
+ "C06": ("model-based stateful PBT (slice model), bounded-exhaustive sequences over both stack implementations + rapid empty/refill histories; pointer elements",
          "Every Push/Pop sequence up to the bound (and every sequence of single observer/mutator calls up to a smaller bound) on both implementations against a slice model with complete observation and a fixed epilogue (drain, pops on empty, refill). One open known finding (LStack.Pop returns the element below the removed one, pinned by the repository's Example) suspends only the comparison of LStack.Pop's return value on a non-empty stack." + BOUND,
          "Trusts the slice model. Known finding lstack-pop-returns-below.", "4 (C05/C06)", "pbt"),
  "C07": ("model-based stateful PBT: bounded-exhaustive operation sequences + rapid random sequences against a recency-list reference model, final drain",
          "Every operation sequence up to length 4 (thorough: 5) over keys 0..3 (0..4) for every capacity 1..4 is executed against a recency-list model (complete inside that bound), plus thousands of seeded random longer sequences with larger capacities; every return value, Count after every step, a final lookup of every key and a final drain by RemoveOldest are compared." + BOUND,
          "Trusts the reference model (about 60 lines) and the Go toolchain; int keys/values only.", "4 (C07)", "pbt"),
- "C08": ("model-based stateful PBT in virtual time (testing/synctest): deadline-targeted timelines, bounded-exhaustive + rapid, map-with-deadlines model",
+ "C08": ("model-based stateful PBT in virtual time (testing/synctest): deadline-targeted timelines, bounded-exhaustive + rapid, map-with-deadlines model; volume (thousands of keys) and interface-valued sub-checks",
          "Call sequences including Advance-to-{deadline-1ns, deadline, deadline+1ns, next cleanup tick} run inside a synctest bubble, so 'live before the deadline, expired after it' is executed at exact instants for all six default/cleanup configurations; all sequences up to length 3 (thorough 4) over a 50-operation alphabet plus random longer ones against a map-with-deadlines model; Count/List checked after every step. Lenient exactly where the statement is open (the deadline instant itself, expired-but-unpurged entries in Count/List, cleanup within two ticks)." + BOUND,
          "Trusts Go's synctest fake clock and the model; needs the verif hook cache.VerifStopCleanup to end the cleanup goroutine inside the bubble. Real-timer lateness under load is outside what is asserted.", "3.4, 4 (C08)", "pbt"),
  "C09": ("model-based PBT (map model) over key sets and queries, bounded-exhaustive + rapid (arbitrary bytes) + native fuzz target",
          "All small key sets over a 2-letter alphabet in all insertion orders with every query string, plus random key sets of arbitrary bytes (shared prefixes, nested keys, bytes >= 0x80), against a Go map: Get/Contains exactness (no prefixes/extensions), Size, Keys and StartsWith in byte order, LongestPrefix, empty key/prefix/query handling." + BOUND,
          "Trusts the map model; Put of an empty key is outside the domain.", "4 (C09)", "pbt"),
- "C10": ("model-based stateful PBT (map model + height bound), bounded-exhaustive Put/Remove/Get sequences, all insertion orders of up to 9-10 keys, long phase histories",
+ "C10": ("model-based stateful PBT (map model + height bound), bounded-exhaustive Put/Remove/Get sequences, all insertion orders of up to 9-10 keys, long phase histories; string/float64/uint8 keys with struct values",
          "Every Put/Remove/Get sequence up to the bound over keys 0..5 from three preset prefixes, every permutation of up to 9 (10) keys, and 100-1500-key histories in sorted/reversed/shuffled/zigzag order are checked against a map model: Get, Size, IsEmpty, ascending Traverse and the stated height bound after every operation." + BOUND,
          "Trusts the map model; int keys.", "4 (C10)", "pbt"),
- "C11": ("differential PBT against quadratic reference implementations written from the statement, bounded-exhaustive tuples of small slices and nestings + rapid",
+ "C11": ("differential PBT against quadratic reference implementations written from the statement, bounded-exhaustive tuples of small slices and nestings + rapid (slices up to 10000 elements, nestings over one shared backing array); concurrent callers compared with the same call running alone",
          "All slices up to the bound over a small alphabet, all tuples of 1..3 slices, all nestings up to depth 3 (incl. malformed ones) and a finite family of key functions are compared with independent quadratic references; unordered results as sets; By-variants by their defining subsequence/qualification property." + BOUND,
          "Trusts the quadratic references; no NaN floats.", "4 (C11)", "pbt"),
  "C12": ("metamorphic/identity PBT (concatenation, partition, permutation, transpose, involution identities; callback visit logs; callbacks that observe the argument during the call), bounded-exhaustive + rapid (incl. slices of up to 20000 elements, nestings of depth up to 48, arguments that are windows of one array, signed zeros) + native fuzz target",
          "All small slices with every chunk size, drop count, predicate/key from a finite family, square matrices and nestings are checked by the conservation identities of the statement; documented panics count as rejection." + BOUND,
          "Trusts the identities as executable readings of the statement.", "4 (C12)", "pbt"),
- "C13": ("definitional-oracle PBT (defining inequalities / quantifier references / closed-form Range reference), bounded-exhaustive incl. all int8 triples + rapid",
+ "C13": ("definitional-oracle PBT (defining inequalities / quantifier references / closed-form Range reference), bounded-exhaustive incl. all int8 triples + rapid (64-bit magnitudes, special floats, long slices); concurrent callers compared with the same call running alone",
          "All small slices with every probe and index window, all int8 triples for Clamp/InRange/Abs, all (start,step,end) in [-10,10]^3 and the shorter/longer argument forms for Range, across several element types, against definitional references; panics inside the documented domain are violations." + BOUND,
          "Trusts the references; documented domain restrictions (no NaN, no overflow, Abs of the type minimum, non-empty Mean) stated in the rule.", "4 (C13)", "pbt"),
- "C14": ("reference-model PBT over maps with set/defining-property comparison, each case executed under several map iteration orders, bounded-exhaustive + rapid (incl. maps of up to 2048 entries and pointer-valued maps)",
+ "C14": ("reference-model PBT over maps with set/defining-property comparison, each case executed under several map iteration orders, bounded-exhaustive + rapid (incl. maps of up to 2048 entries and pointer-valued maps); concurrent callers compared with the same call running alone",
          "All maps with up to 4 entries over 4 keys x 3 values, key lists and predicates from a finite family, and small collections of maps are checked against references; unordered or free choices by their defining property; each case runs several times because Go randomises map iteration." + BOUND,
          "Trusts the references.", "4 (C14)", "pbt"),
- "C15": ("byte-level reference + round-trip PBT, bounded-exhaustive strings/offsets/tokens + rapid + native fuzz target",
+ "C15": ("byte-level reference + round-trip PBT, bounded-exhaustive strings/offsets/tokens + rapid (long strings, format/regexp metacharacters, invalid UTF-8 baseline) + native fuzz target; concurrent callers compared with the same call running alone",
          "All strings up to 5 (6) symbols over an alphabet mixing ASCII, multi-byte runes and token characters with every offset/length/index/size in a window around the length plus the int extremes are compared with a byte-level PHP-rule Substr reference, split/pad/wrap identities and Unicode case mapping; case styles by the clauses the statement lists." + BOUND,
          "Trusts the references; empty pad token and invalid UTF-8 for rune helpers are outside the domain.", "4 (C15)", "pbt"),
- "C16": ("snapshot-differential PBT: deep snapshots incl. capacity region and sentinels before / DURING (from inside the callbacks) / after every helper call and call pair over a registry of all exported helpers; string results re-compared with byte-wise copies after later calls",
+ "C16": ("snapshot-differential PBT: deep snapshots incl. capacity region and sentinels before / DURING (from inside the callbacks) / after every helper call and call pair over a registry of all exported helpers; string results re-compared with byte-wise copies after later calls; results overwritten by the caller and calls repeated; byte/string/float64/struct element types",
          "92 call forms of every exported slice/map helper run on arguments placed in backing arrays with spare capacity and sentinels; all single calls and all ordered pairs sharing an argument are enumerated over a small input scope: arguments must be unchanged (in-place helpers: only their documented argument, never beyond len) and earlier results must not be altered by later calls." + BOUND,
          "Aliasing is judged by observable alteration only (no pointer comparison); string results are compared with byte-wise copies taken when they were returned (sub-check strings).", "4 (C16)", "pbt"),
- "C17": ("timeline PBT in virtual time (synctest) with exact-instant oracle (outcomes value / error / item together with error); sequential sub-check for results the cache cannot store; free-running sub-check with in-flight counters (also race-built in the thorough tier)",
+ "C17": ("timeline PBT in virtual time (synctest) with exact-instant oracle (outcomes value / error / item together with error); sequential sub-checks for results the cache cannot store and for thousands of keys; free-running sub-check with in-flight counters (also race-built in the thorough tier)",
          "Generated call timelines (1-16 callers, 1-3 keys, latencies 0/3/21ms, value/error outcomes, expiry none/40ms) run in a synctest bubble; single flight, provenance of every result, join semantics, cache-hit semantics, error non-caching and key isolation are decided on exact virtual instants, leniently at coinciding instants; every timeline of up to 3 (4) calls is enumerated. A free-running sub-check hammers the API with real goroutines (race-built in the thorough tier)." + BOUND,
          "Trusts synctest's fake clock; the oracle models which results are actually cached (documented in DESIGN).", "4 (C17)", "pbt"),
  "C18": ("exhaustive small-scope PBT with counting callbacks (results incl. the zero value); RetryWithDelay in virtual time with callbacks that take time",
@@ -64,9 +64,9 @@ CLAIMED = {
  "C19": ("model-based stateful PBT (slice model) over both list types with bounded Each, bounded-exhaustive + rapid, fixed closing script; separate sub-checks with repeated values",
          "Every operation sequence up to length 5 (thorough 6-7) on SList and DList with node handles taken from Find immediately before use, against a slice model observed through a bounded Each, First/Last and Find after every call, followed by a closing script that edits next to every node (stale links only show on later edits)." + BOUND,
          "Trusts the slice model; distinct non-zero values; nil handle only for the inserts.", "4 (C19)", "pbt"),
- "C20": ("timeline PBT in virtual time (synctest): delay, debounce (also with debounced functions that take time) and throttle event sequences with exact-instant oracles, bounded-exhaustive + rapid",
+ "C20": ("timeline PBT in virtual time (synctest): delay, debounce (also with debounced functions that take time) and throttle event sequences with exact-instant oracles, bounded-exhaustive + rapid; free-running debounce and throttle under the real scheduler and clock with counting / bracketing assertions",
          "Delay/Stop placements, debounce bursts (single and simultaneous callers, cancel) and throttle Call/Next/Cancel arrangements with 1-3 consumer goroutines run in a synctest bubble; never-early, at-most-once-per-burst, cancel, liveness, one-permission-per-period, trailing-only-when-configured and prompt-Cancel are decided on exact instants, leniently when two events coincide." + BOUND,
-         "Trusts synctest's fake clock and that sync.Cond.Wait is durably blocking in a bubble; real-timer lateness is outside what is asserted.", "4 (C20)", "pbt"),
+         "Trusts synctest's fake clock and that sync.Cond.Wait is durably blocking in a bubble. The free-running sub-checks use the real clock: only counting bounds and bracketing with a threshold of three events are asserted there, because a single late start cannot be excluded by any implementation.", "4 (C20)", "pbt"),
 }
 
 import os as _os
